@@ -41,6 +41,9 @@ type mdConfig struct {
 	Unsafe    bool   `json:"unsafe,omitempty"`
 	XHTML     bool   `json:"xhtml,omitempty"`
 	HardWraps bool   `json:"hardwraps,omitempty"`
+	// FnPrefix: footnote id prefix (renderer option of the Footnote extension), handed over as a
+	// byte slice with spare capacity, as a caller that builds it with append would
+	FnPrefix string `json:"fnprefix,omitempty"`
 }
 
 func (c mdConfig) String() string {
@@ -52,6 +55,9 @@ func (c mdConfig) String() string {
 		if f.on {
 			s += "+" + f.n
 		}
+	}
+	if c.FnPrefix != "" {
+		s += "+fnprefix=" + c.FnPrefix
 	}
 	return s
 }
@@ -142,6 +148,9 @@ func (c mdConfig) build() goldmark.Markdown {
 	}
 	if c.HardWraps {
 		ropts = append(ropts, html.WithHardWraps())
+	}
+	if c.FnPrefix != "" {
+		ropts = append(ropts, extension.WithFootnoteIDPrefix(append(make([]byte, 0, 64), c.FnPrefix...)))
 	}
 	return goldmark.New(goldmark.WithExtensions(extensionsOf(c.Ext)...), goldmark.WithParserOptions(popts...), goldmark.WithRendererOptions(ropts...))
 }
@@ -292,7 +301,7 @@ var mutTokens = []string{
 	"[", "]", "(", ")", "[^", "[^1]", "[^1]: ", "[a]: /u \"t\"\n", "[a]", "[a][]", "[x](y)", "![", "](", "<", ">", "</", "<!--", "-->", "<?", "?>", "<![CDATA[", "]]>", "<!A", "<div>", "</div>", "<script>", "<pre>", "<a href=\"x\">",
 	"&", "&amp;", "&#", "&#x", "&#0;", "&#x110000;", "&copy;", "&colon;", "&Tab;", ";", "\\", "\\\\", "\\*", "\\\n", "  \n", "|", "| a | b |\n", "|---|---|\n", "|:-:|", ":", ": def\n", "\"", "'", "...", "--", "<<", ">>",
 	"{", "}", "{#id}", "{.c}", "{k=v}", "{id=1}", "{k=\"v\\", "{id=\"a<\"}", "{class=\"b&\"}", "{Class=1 .c}", " {.x}\n===\n", "<DIV>", "</DIV>", "<Table>", "&#x100000041;", "&#4294967361;", "`x\\|y\\|z`", "\\|", "||\n", "[^x][^x]", "-\n  ", "1.\n   ", "\\\t", "  \n", "`a\n", "\n---\n", "\n===\n", "[l\nm]", "(/u 't\nu')", "http://a.b/c", "www.a.b", "a@b.c", "javascript:", "[ ] ", "[x] ", "a", "b", "foo", "Bar", "x y", "1", "0",
-	"Www.a.bc", "WWW.A.BC", "wWw.", "ww.", "http //", "(c)", "(tm)", "1/2", ",,", "(x) ", "[1]", "^1", "\n; ", "\n~ ", "| = |\n", "|:=:|", "==", "^^", "\u0100", "\u00ff", "\u2003", "\u3000", "\\  \n\\",
+	"Www.a.bc", "WWW.A.BC", "wWw.", "ww.", "http //", "(c)", "(tm)", "1/2", ",,", "(x) ", "[1]", "^1", "\n; ", "\n~ ", "| = |\n", "|:=:|", "==", "^^", "\u0100", "\u00ff", "\u2003", "\u3000", "\\  \n\\", "{k=[1]}", "{data-x=[true, \"a\"]}", "{title=1.5}", "{k=null}", ">\t```\n", "<a&b@c.de>",
 }
 
 type docGen struct {
